@@ -1039,6 +1039,65 @@ fn case_cells(case: &Case, m: &Model, obs: &mut Obs) {
     }
 }
 
+/// CONFIG route: the same definitions given as `InstrumentConfig`s (how `SystemConfig` and files supply them; the
+/// internal name is then derived by the library from exchange + underlying) and indexed with
+/// `IndexedInstruments::new(configs)`. Judged structurally: one index per distinct config, index == position, and
+/// for every instrument whose (exchange, base, quote) is unique in the collection, name -> index is the inverse
+/// of index -> name.
+fn config_route(case: &Case, obs: &mut Obs) -> Result<(), Fail> {
+    use barter::system::config::InstrumentConfig;
+    use barter_instrument::{Underlying, asset::name::AssetNameExchange, instrument::{kind::InstrumentKind, name::InstrumentNameExchange, quote::InstrumentQuoteAsset}};
+    let configs: Vec<InstrumentConfig> = case
+        .defs
+        .iter()
+        .map(|d| InstrumentConfig {
+            exchange: d.exchange,
+            name_exchange: InstrumentNameExchange::from(d.name_exchange.as_str()),
+            underlying: Underlying { base: AssetNameExchange::from(d.base.as_str()), quote: AssetNameExchange::from(d.quote.as_str()) },
+            quote: InstrumentQuoteAsset::UnderlyingQuote,
+            kind: InstrumentKind::Spot,
+            spec: None,
+        })
+        .collect();
+    let distinct: BTreeSet<&InstrumentConfig> = configs.iter().collect();
+    let key = |c: &InstrumentConfig| (c.exchange, c.underlying.base.name().to_lowercase(), c.underlying.quote.name().to_lowercase());
+    let mut per_key: BTreeMap<(ExchangeId, String, String), usize> = BTreeMap::new();
+    for c in &distinct {
+        *per_key.entry(key(c)).or_default() += 1;
+    }
+    obs.checks += 1;
+    obs.events += 1;
+    let built = catch(|| IndexedInstruments::new(configs.clone())).map_err(|p| ("panic_in_index_build", format!("IndexedInstruments::new(InstrumentConfig..) panicked: {p}")))?;
+    if built.instruments().len() != distinct.len() {
+        return Err(("instrument_count_mismatch", format!("config route: {} distinct instrument configs, {} indexed", distinct.len(), built.instruments().len())));
+    }
+    for (pos, k) in built.instruments().iter().enumerate() {
+        obs.checks += 1;
+        if k.key.index() != pos {
+            return Err(("instrument_index_not_position", format!("config route: position {pos} holds {:?}", k.key)));
+        }
+        let ins = &k.value;
+        let asset_name = |a: AssetIndex| built.assets().get(a.index()).map(|x| x.value.asset.name_exchange.name().to_lowercase());
+        let cfg_key = match (asset_name(ins.underlying.base), asset_name(ins.underlying.quote)) {
+            (Some(b), Some(q)) => Some((ins.exchange.value, b, q)),
+            _ => None,
+        };
+        if let Some(kk) = cfg_key {
+            if per_key.get(&kk).copied().unwrap_or(0) == 1 {
+                let back = built.find_instrument_index(ins.exchange.value, &ins.name_internal);
+                if back.as_ref().ok() != Some(&k.key) {
+                    return Err((
+                        "instrument_name_lookup_not_inverse_of_index",
+                        format!("config route: {:?} = {} on {} (the only instrument of that exchange on {:?}): find_instrument_index(name) = {back:?}", k.key, ins.name_internal, ins.exchange.value, kk),
+                    ));
+                }
+                obs.cells.push("route:instrument_configs");
+            }
+        }
+    }
+    Ok(())
+}
+
 fn run_case(case: &Case, obs: &mut Obs) -> Result<(), Fail> {
     obs.checks += 1;
     if case.defs.iter().any(|d| d.default_named) {
@@ -1046,6 +1105,7 @@ fn run_case(case: &Case, obs: &mut Obs) -> Result<(), Fail> {
     }
     let m = Model::of(&case.defs);
     case_cells(case, &m, obs);
+    config_route(case, obs)?;
     let mut rng = Rng::new(case.balance_seed ^ 0x5151);
 
     let mut first: Option<(IndexedInstruments, String)> = None;
@@ -1327,7 +1387,8 @@ fn gen_case(rng: &mut Rng, small: bool) -> Case {
     Case { defs, orders, balance_seed: rng.next_u64(), exec_seed: rng.next_u64(), light: small }
 }
 
-const FLOOR: [&str; 15] = [
+const FLOOR: [&str; 16] = [
+    "route:instrument_configs",
     "exchanges>=2",
     "shared_asset_name_across_exchanges",
     "exact_duplicate_definition",
